@@ -264,7 +264,7 @@ func c15Unmarked(c *Ctx) {
 		return
 	}
 	c.Trust("go-cty v1.16.3: the set of cty.Value methods that panic on marked receivers is re-derived from its SSA on every run and equals the frozen list")
-	scope := []string{"hcl", "hclsyntax", "json", "hcldec", "ext/dynblock"}
+	scope := c.ScopeWith([]string{"gohcl", "hclparse", "hclsimple", "hcled", "ext/userfunc", "ext/transform", "ext/tryfunc"}, "hcl", "hclsyntax", "json", "hcldec", "ext/dynblock")
 	fns := c.P.pkgFuncs(scope...)
 	sites := e.Sites(fns)
 	perFn := map[string]int{}
